@@ -30,7 +30,7 @@ THEOREMS = [
     # the tree-level driver `Resampler.__call__` as TRANSLATED from transforms/tree.py on every run (Gen/AlgoResampleTree.lean) is the composition of the generated pieces
     "RefineResamTree.for2_loop", "RefineResamTree.for3_loop", "RefineResamTree.resam_tree_eq", "C16Tree.generated_resample_tree_eq_compose", "C16Tree.generated_resample_tree_wf_partial",
     # `TreeSmoother.__call__` as TRANSLATED (Gen/AlgoResampleTree.lean `smooth_tree`): the loop is a fold over the branches; on every well-formed tree every branch ends up smoothed from its ORIGINAL rows, end points / root / furcations / tips keep their coordinates
-    "RefineSmoothTree.for1_step", "RefineSmoothTree.for1_loop", "RefineSmoothTree.smooth_tree_eq", "C16Tree2.stepCol_frame", "C16Tree2.foldl_gather", "C16Tree2.pairwise_tree", "C16Tree2.good_tree", "C16Tree2.generated_smooth_tree", "C16Tree2.generated_smooth_tree_endpoints",
+    "RefineSmoothTree.for1_step", "RefineSmoothTree.for1_loop", "RefineSmoothTree.smooth_tree_eq", "C16Tree2.stepCol_frame", "C16Tree2.foldl_gather", "C16Tree2.pairwise_tree", "C16Tree2.good_tree", "C16Tree2.generated_smooth_tree", "C16Tree2.generated_smooth_tree_endpoints", "C16Tree2.foldl_perm", "C16Tree2.generated_smooth_tree_order",
     # `Rep` derived: every ranked table represents a rose tree; the branch tree of a well-formed tree is ranked (preorder position); the driver theorem without `Rep`
     "RefineAsm.rep_exists", "C16Tree.rep_of_ranked", "C16Tree2.branch_pre_lt", "C16Tree.branchTree_ranked", "C16Tree.generated_resample_tree_wf",
     "RefineAsm.rep_exists_sized", "RefineAsm.Desc.disjoint", "C16Tree.rep_of_ranked_sized", "C16Tree.branches_length_le", "C16Tree.generated_resample_tree_wf_full",
